@@ -139,10 +139,12 @@ func addLeaf(t Tree, r *Route, s *Segment, h Handler) (Leaf, error) {
 				return nil, errors.Wrap(err, "add optional leaf to grandparent")
 			}
 		} else {
-			_, err = addLeaf(parent, r, parent.getSegment(), h)
+			// The route only has one segment, its short form is the root path ("/").
+			_, err = addLeaf(parent, r, &Segment{Pos: s.Pos, Slash: s.Slash}, h)
 			if err != nil {
 				return nil, errors.Wrap(err, "add optional leaf to parent")
 			}
+			leaves = t.getLeaves() // The short form has been added to the same tree
 		}
 	}
 
